@@ -31,6 +31,7 @@ RUN_POINTS = {
 RUN_KINDS = ("exit0", "exit1", "exit3", "exit-text", "conn", "uds", "unexpected", "sigint")
 # crash points outside run(): what can happen there
 OUTSIDE = (
+    ("lockfault", "lock"),  # the lock file cannot be taken (real fault: its directory does not exist -> OSError)
     ("sigint", "pre-hook"),  # Ctrl-C while the pre-hook runs (the hook process signals gallia)
     ("sigint", "db-open"),  # Ctrl-C after the database connection is up, before the run row exists
     ("dbfault", "db-open"),  # database cannot be opened (real fault: parent of the db path is a file)
@@ -42,6 +43,7 @@ HOOK_VARIANTS = ("off", "ok", "pre-fail", "post-fail", "both-fail")
 
 PHASE = {
     "none": "run",
+    "lock": "before-run",
     "pre-hook": "before-run",
     "db-open": "before-run",
     "setup-early": "run",
@@ -64,7 +66,14 @@ def scenarios(cmd: str) -> list[tuple[str, str]]:
     return out
 
 
-def reachable(kind: str, point: str, db: bool, hv: str) -> bool:
+def nested_scenarios(cmd: str) -> list[tuple[str, str]]:
+    """(exit kind, point) of the INNER command when an outer command awaits its entry_point() (like `script rerun`)."""
+    return [("normal", "none")] + [(k, p) for p in RUN_POINTS[cmd] for k in RUN_KINDS]
+
+
+def reachable(kind: str, point: str, db: bool, hv: str, lock: bool = True) -> bool:
+    if point == "lock" and not lock:
+        return False
     if point in ("pre-hook", "post-hook") and hv == "off":
         return False
     if point in ("db-open", "db-close") and not db:
@@ -75,7 +84,11 @@ def reachable(kind: str, point: str, db: bool, hv: str) -> bool:
 @dataclass
 class Expect:
     codes: list[int]  # admissible exit codes; process, META and DB must all agree on ONE of them
-    weak: bool = False  # outside the statement's list of endings: only consistency is demanded
+    # endings the statement's mapping does not list (lock / database cannot be opened): any non-zero status is
+    # admissible, but everything that exists afterwards must be consistent with it: a run directory that was created
+    # has a META.json carrying the process status, its log is closed and detached, a run row that exists is complete
+    unlisted: bool = False
+    run_started: bool = True  # False: gallia gives up before the run proper (no hooks, no lock file demanded)
     db_row: str = "complete"  # complete | optional (run may end before the row exists) | any (db itself is faulty)
     notes: list[str] = field(default_factory=list)
 
@@ -101,10 +114,10 @@ def base_code(cmd: str, kind: str) -> int:
 
 
 def expect(cmd: str, kind: str, point: str) -> Expect:
+    if kind == "lockfault":
+        return Expect(codes=[], unlisted=True, db_row="optional", run_started=False)
     if kind == "dbfault" and point == "db-open":
-        # not an ending the statement enumerates ("raised in setup, main or teardown"): demand only that
-        # the process does not claim success and that whatever records exist do not contradict it
-        return Expect(codes=[], weak=True, db_row="any")
+        return Expect(codes=[], unlisted=True, db_row="any")
     if kind == "dbfault" and point == "db-close":
         # the run itself ended normally; a database that refuses the final update cannot carry the record
         return Expect(codes=[OK], db_row="any")
